@@ -1047,7 +1047,11 @@ func (cs *State) handleTxsAvailable() {
 func (cs *State) enterNewRound(height int64, round int32) {
 	logger := cs.Logger.With("height", height, "round", round)
 
-	if cs.Height != height || round < cs.Round || (cs.Round == round && cs.Step != cstypes.RoundStepNewHeight) {
+	// A node in the commit step has seen the decision of this height and only waits for
+	// the block: votes of later rounds must not take it out of that step (nothing
+	// would bring it back, the precommits of the commit round are all in already).
+	if cs.Height != height || round < cs.Round || (cs.Round == round && cs.Step != cstypes.RoundStepNewHeight) ||
+		cs.Step == cstypes.RoundStepCommit {
 		logger.Debug(
 			"entering new round with invalid args",
 			"current", log.NewLazySprintf("%v/%v/%v", cs.Height, cs.Round, cs.Step),
